@@ -6,5 +6,5 @@ import (
 )
 
 func main() {
-	Main(map[string]Runner{"abi": embx.RunAbi, "calls": embx.RunCalls, "removed": embx.RunRemoved})
+	Main(map[string]Runner{"abi": embx.RunAbi, "calls": embx.RunCalls, "removed": embx.RunRemoved, "wedge": embx.RunWedge})
 }
